@@ -109,24 +109,61 @@ pub fn explore(r: &mut Runner, name: &str, groups: &[Vec<HCall>], maxlen: usize,
 /// The thorough tier explores one call deeper (`maxlen + 1`).  Work is split by (alphabet, first call of the sequence).
 pub fn explore_with(r: &mut Runner, name: &str, groups: &[Vec<HCall>], maxlen: usize, exec: Exec, judge: Judge, base_index: u64) {
     let maxlen = if r.quick() { maxlen } else { maxlen + 1 };
+    let judged: Vec<usize> = groups.iter().map(|g| g.len()).collect();
+    explore_core(r, name, groups, &judged, maxlen, exec, judge, base_index)
+}
+
+/// Cross-family histories: each alphabet = the property's own calls (the first `judged[g]` entries, the only ones the
+/// judge is applied to) followed by FOREIGN calls — other public functions on the same operands — that may only occur as
+/// prefix calls.  State shared between two different public functions (a cache filled by one and read by another, a
+/// private helper with a memo) shows as a last call whose result depends on which foreign calls went before.
+pub fn explore_mixed(r: &mut Runner, name: &str, own: &[Vec<HCall>], maxlen: usize, judge: Judge, base_index: u64) {
+    let mut groups: Vec<Vec<HCall>> = vec![];
+    let mut judged: Vec<usize> = vec![];
+    for g in own {
+        let mut all = g.clone();
+        let a = g[0].a;
+        let b = if g[0].b[0] != 0.0 { g[0].b } else { [a[0] * 0.75, a[1] * 0.75] };
+        for &o in Op::ALL {
+            let c = match o.arity() {
+                1 if o != Op::from_f64 && o != Op::sin_cos => HCall::op(o, a, [0.0, 0.0]),
+                2 if matches!(o, Op::add | Op::sub | Op::mul | Op::div | Op::rem | Op::hypot | Op::powf | Op::log | Op::atan2 | Op::div_euclid | Op::rem_euclid | Op::mul_assign | Op::div_assign | Op::powi) => HCall::op(o, a, if o == Op::powi { [5.0, 0.0] } else { b }),
+                _ => continue,
+            };
+            if !all.iter().any(|d| d.kind == c.kind && d.code == c.code && d.a[0].to_bits() == c.a[0].to_bits() && d.a[1].to_bits() == c.a[1].to_bits() && d.b[0].to_bits() == c.b[0].to_bits() && d.b[1].to_bits() == c.b[1].to_bits()) {
+                all.push(c);
+            }
+        }
+        all.push(HCall::op(Op::sin_cos, a, [0.0, 0.0]));
+        for k in [4u8, 7, 10, 12, 13] {
+            all.push(HCall::ext(k, a, b));
+        }
+        judged.push(g.len());
+        groups.push(all);
+    }
+    explore_core(r, name, &groups, &judged, maxlen, &|c: &HCall| c.exec(), judge, base_index)
+}
+
+fn explore_core(r: &mut Runner, name: &str, groups: &[Vec<HCall>], judged: &[usize], maxlen: usize, exec: Exec, judge: Judge, base_index: u64) {
     let rec = r.recorder();
     let mut total = 0u64;
-    for g in groups {
+    for (g, &j) in groups.iter().zip(judged) {
         let n = g.len() as u64;
         for len in 2..=maxlen as u32 {
-            total += n.pow(len);
+            total += n.pow(len - 1) * j as u64;
         }
     }
     let ng = groups.len();
     // work units: (group, first call)
     let units: Vec<(usize, usize)> = groups.iter().enumerate().flat_map(|(gi, g)| (0..g.len()).map(move |f| (gi, f))).collect();
-    r.notes.push(format!("{}: {} call alphabets of {} calls on average; ALL sequences of length 2..={} over each alphabet = {} histories, each on a fresh thread, the property's judge applied to the last call (calls that fail on an empty history are left to the other phases)", name, ng, groups.iter().map(|g| g.len()).sum::<usize>() / ng.max(1), maxlen, total));
+    r.notes.push(format!("{}: {} call alphabets of {} calls on average ({} of them judged as last call); ALL sequences of length 2..={} over each alphabet that end in a judged call = {} histories, each on a fresh thread, the property's judge applied to the last call (calls that fail on an empty history are left to the other phases)", name, ng, groups.iter().map(|g| g.len()).sum::<usize>() / ng.max(1), judged.iter().sum::<usize>() / ng.max(1), maxlen, total));
     r.par(name, units.len(), total, |ui, l| {
         let (gi, first) = units[ui];
         let g = &groups[gi];
         let n = g.len();
         // isolated verdicts (empty history, fresh thread)
-        let alone: Vec<bool> = g.iter().map(|c| run_sequence_with(&[*c], exec, judge, &mut Local::default()).is_fail()).collect();
+        let nj = judged[gi];
+        let alone: Vec<bool> = g[..nj].iter().map(|c| run_sequence_with(&[*c], exec, judge, &mut Local::default()).is_fail()).collect();
         let mut before = 0u64; // sequences of shorter lengths (all first calls), for a stable index
         for len in 2..=maxlen {
             let tails = n.pow(len as u32 - 1);
@@ -140,6 +177,9 @@ pub fn explore_with(r: &mut Runner, name: &str, groups: &[Vec<HCall>], maxlen: u
                 seq.push(g[first]);
                 seq.reverse();
                 let last = t % n;
+                if last >= nj {
+                    continue;
+                }
                 let k = before + (first * tails + t) as u64 + 1;
                 if alone[last] {
                     l.transitions += 1;
